@@ -1,0 +1,112 @@
+//go:build verif
+
+// Contracts for the verification machinery in /verif (comment-only; excluded from normal builds).
+// Property C20 (LoongArch emulator, integer subset). Mode bv.
+//
+// Oracle: LoongArch Reference Manual vol. 1 (LA64), for the 24 integer instructions the emulator implements.
+// One step of execInst on a decoded instruction (mnemonic fixed per obligation; register numbers, immediate,
+// every register file, pc and memory symbolic) must leave r1..r31, the pc and memory as the manual prescribes;
+// r0 reads as zero. Operand conventions are those of loong64.DecodeEx's raw argument: Rd = rd (bits 4:0),
+// Rs1 = rj (9:5), Rs2 = rk (14:10); Imm = the sign-extended si12 / si20 field, the zero-extended ui5 / ui12
+// field, or the sign-extended branch offset already shifted left by 2.
+// Floating point and every instruction the emulator reports as unsupported (or leaves as TODO) is not claimed.
+
+package loong64
+
+//@ ghost mem (Array (_ BitVec 64) (_ BitVec 8))
+//@ spec (define-fun ld8  ((m (Array (_ BitVec 64) (_ BitVec 8))) (a (_ BitVec 64))) (_ BitVec 64) ((_ zero_extend 56) (select m a)))
+//@ spec (define-fun ld16 ((m (Array (_ BitVec 64) (_ BitVec 8))) (a (_ BitVec 64))) (_ BitVec 64)
+//@        ((_ zero_extend 48) (concat (select m (bvadd a #x0000000000000001)) (select m a))))
+//@ spec (define-fun ld32 ((m (Array (_ BitVec 64) (_ BitVec 8))) (a (_ BitVec 64))) (_ BitVec 64)
+//@        ((_ zero_extend 32) (concat (select m (bvadd a #x0000000000000003)) (concat (select m (bvadd a #x0000000000000002))
+//@          (concat (select m (bvadd a #x0000000000000001)) (select m a))))))
+//@ spec (define-fun ld64 ((m (Array (_ BitVec 64) (_ BitVec 8))) (a (_ BitVec 64))) (_ BitVec 64)
+//@        (concat (select m (bvadd a #x0000000000000007)) (concat (select m (bvadd a #x0000000000000006)) (concat (select m (bvadd a #x0000000000000005))
+//@          (concat (select m (bvadd a #x0000000000000004)) (concat (select m (bvadd a #x0000000000000003)) (concat (select m (bvadd a #x0000000000000002))
+//@            (concat (select m (bvadd a #x0000000000000001)) (select m a)))))))))
+//@ spec (define-fun st8 ((m (Array (_ BitVec 64) (_ BitVec 8))) (a (_ BitVec 64)) (v (_ BitVec 64))) (Array (_ BitVec 64) (_ BitVec 8))
+//@        (store m a ((_ extract 7 0) v)))
+//@ spec (define-fun st16 ((m (Array (_ BitVec 64) (_ BitVec 8))) (a (_ BitVec 64)) (v (_ BitVec 64))) (Array (_ BitVec 64) (_ BitVec 8))
+//@        (store (st8 m a v) (bvadd a #x0000000000000001) ((_ extract 15 8) v)))
+//@ spec (define-fun st32 ((m (Array (_ BitVec 64) (_ BitVec 8))) (a (_ BitVec 64)) (v (_ BitVec 64))) (Array (_ BitVec 64) (_ BitVec 8))
+//@        (store (store (st16 m a v) (bvadd a #x0000000000000002) ((_ extract 23 16) v)) (bvadd a #x0000000000000003) ((_ extract 31 24) v)))
+//@ spec (define-fun st64 ((m (Array (_ BitVec 64) (_ BitVec 8))) (a (_ BitVec 64)) (v (_ BitVec 64))) (Array (_ BitVec 64) (_ BitVec 8))
+//@        (store (store (store (store (st32 m a v) (bvadd a #x0000000000000004) ((_ extract 39 32) v)) (bvadd a #x0000000000000005) ((_ extract 47 40) v))
+//@          (bvadd a #x0000000000000006) ((_ extract 55 48) v)) (bvadd a #x0000000000000007) ((_ extract 63 56) v)))
+//@ spec mem_load(m (Array (_ BitVec 64) (_ BitVec 8)), a uint64, size uint64) uint64 :=
+//@      ite(size == 1, ld8(m, a), ite(size == 2, ld16(m, a), ite(size == 4, ld32(m, a), ld64(m, a))))
+//@ spec mem_store(m (Array (_ BitVec 64) (_ BitVec 8)), a uint64, size uint64, v uint64) (Array (_ BitVec 64) (_ BitVec 8)) :=
+//@      ite(size == 1, st8(m, a, v), ite(size == 2, st16(m, a, v), ite(size == 4, st32(m, a, v), st64(m, a, v))))
+
+//@ extern (*device.Bus).Read
+//@   requires size == 1 || size == 2 || size == 4 || size == 8
+//@   ensures result1 == nil ==> result0 == mem_load(mem, addr, size)
+//@ extern (*device.Bus).Write
+//@   requires size == 1 || size == 2 || size == 4 || size == 8
+//@   ensures result == nil ==> mem == mem_store(old(mem), addr, size, value)
+//@   ensures result != nil ==> mem == old(mem)
+//@   modifies mem
+//@ extern loong64.AsString
+//@   pure
+
+// ---- ISA semantics (LA64): a = GR[rj], b = GR[rk], d = GR[rd]
+//@ spec sx(imm int32) uint64 := uint64(int64(imm))
+//@ spec sx32(v uint32) uint64 := uint64(int64(int32(v)))
+//@ spec b2u(c bool) uint64 := ite(c, 1, 0)
+//@ spec la_val(k abi.As, a uint64, b uint64, imm int32, pc uint64, m (Array (_ BitVec 64) (_ BitVec 8))) uint64 :=
+//@   ite(k == loong64.AADD_D, a + b,
+//@   ite(k == loong64.AADD_W, sx32(uint32(a) + uint32(b)),
+//@   ite(k == loong64.ASUB_D, a - b,
+//@   ite(k == loong64.ASUB_W, sx32(uint32(a) - uint32(b)),
+//@   ite(k == loong64.AAND, a & b,
+//@   ite(k == loong64.AOR, a | b,
+//@   ite(k == loong64.ASLT, b2u(int64(a) < int64(b)),
+//@   ite(k == loong64.ASLLI_W, sx32(uint32(a) << (uint32(imm) & 31)),
+//@   ite(k == loong64.ASRLI_W, sx32(uint32(a) >> (uint32(imm) & 31)),
+//@   ite(k == loong64.ASRAI_W, sx32(uint32(int32(uint32(a)) >> (uint32(imm) & 31))),
+//@   ite(k == loong64.AADDI_W, sx32(uint32(a) + uint32(imm)),
+//@   ite(k == loong64.ALD_BU, ld8(m, a + sx(imm)),
+//@   ite(k == loong64.ALD_D, ld64(m, a + sx(imm)),
+//@   ite(k == loong64.AORI, a | uint64(uint32(imm)),
+//@   ite(k == loong64.APCADDU12I, pc + sx32(uint32(imm) << 12),
+//@   ite(k == loong64.ALU12I_W, sx32(uint32(imm) << 12),
+//@   ite(k == loong64.ABL, pc + 4,
+//@   0)))))))))))))))))
+// which register an instruction writes (0 = none): rd, except BL which writes r1
+//@ spec la_dst(k abi.As, rd uint32) uint32 :=
+//@   ite(k == loong64.ABL, 1,
+//@   ite(k == loong64.AST_B || k == loong64.AST_W || k == loong64.AST_D || k == loong64.ABEQ || k == loong64.ABNE || k == loong64.ABLT || k == loong64.AB, 0, rd))
+// branches compare GR[rj] with GR[rd]
+//@ spec la_pc(k abi.As, a uint64, d uint64, imm int32, pc uint64) uint64 :=
+//@   ite(k == loong64.AB || k == loong64.ABL, pc + sx(imm),
+//@   ite(k == loong64.ABEQ, ite(a == d, pc + sx(imm), pc + 4),
+//@   ite(k == loong64.ABNE, ite(a != d, pc + sx(imm), pc + 4),
+//@   ite(k == loong64.ABLT, ite(int64(a) < int64(d), pc + sx(imm), pc + 4),
+//@   pc + 4))))
+// stores write GR[rd]
+//@ spec la_mem(k abi.As, a uint64, d uint64, imm int32, m (Array (_ BitVec 64) (_ BitVec 8))) (Array (_ BitVec 64) (_ BitVec 8)) :=
+//@   ite(k == loong64.AST_B, st8(m, a + sx(imm), d),
+//@   ite(k == loong64.AST_W, st32(m, a + sx(imm), d),
+//@   ite(k == loong64.AST_D, st64(m, a + sx(imm), d), m)))
+// operand ranges the decoder guarantees
+//@ spec imm_ok(k abi.As, imm int32) bool :=
+//@   ite(k == loong64.ASLLI_W || k == loong64.ASRLI_W || k == loong64.ASRAI_W, 0 <= imm && imm < 32,
+//@   ite(k == loong64.AORI, 0 <= imm && imm < 4096,
+//@   ite(k == loong64.APCADDU12I || k == loong64.ALU12I_W, -(1 << 19) <= imm && imm < (1 << 19),
+//@   ite(k == loong64.ABEQ || k == loong64.ABNE || k == loong64.ABLT, -(1 << 17) <= imm && imm < (1 << 17) && imm & 3 == 0,
+//@   ite(k == loong64.AB || k == loong64.ABL, -(1 << 27) <= imm && imm < (1 << 27) && imm & 3 == 0,
+//@   -(1 << 11) <= imm && imm < (1 << 11))))))
+//@ spec xr(p *CPU, i uint32) uint64 := ite(i == 0, 0, old(p.RegX[i]))
+
+//@ func (*CPU).execInst
+//@   foreach k in {loong64.AADD_D, loong64.AADD_W, loong64.ASUB_D, loong64.ASUB_W, loong64.AAND, loong64.AOR, loong64.ASLT, loong64.ASLLI_W, loong64.ASRLI_W, loong64.ASRAI_W, loong64.AADDI_W, loong64.ALD_BU, loong64.ALD_D, loong64.AST_B, loong64.AST_W, loong64.AST_D, loong64.AORI, loong64.APCADDU12I, loong64.ALU12I_W, loong64.ABEQ, loong64.ABNE, loong64.ABLT, loong64.AB, loong64.ABL}
+//@   requires[bind] as == k
+//@   requires p != nil && arg != nil && bus != nil
+//@   requires arg.Rd < 32 && arg.Rs1 < 32 && arg.Rs2 < 32 && imm_ok(k, arg.Imm)
+//@   ensures[rd]   result == nil && la_dst(k, arg.Rd) != 0 ==> p.RegX[la_dst(k, arg.Rd)] == la_val(k, xr(p, arg.Rs1), xr(p, arg.Rs2), arg.Imm, old(p.PC), old(mem))
+//@   ensures[regs] result == nil ==> (forall i in 1..32 :: i != la_dst(k, arg.Rd) ==> p.RegX[i] == old(p.RegX[i]))
+//@   ensures[pc]   result == nil ==> p.PC == la_pc(k, xr(p, arg.Rs1), xr(p, arg.Rd), arg.Imm, old(p.PC))
+//@   ensures[mem]  result == nil ==> mem == la_mem(k, xr(p, arg.Rs1), xr(p, arg.Rd), arg.Imm, old(mem))
+//@   modifies p.RegX, p.RegF[0], p.PC, mem
+//@   safe
+//@   property C20L
